@@ -214,7 +214,7 @@ CONFIG = {
         "KNOWN FINDING same-manifest-race (C14_listing_is_live_refuted): Push(A) || Delete(A). For every interleaving in which operations on the SAME manifest do not overlap (Model/Live.v: manifest PUT before / manifest DELETE after the index update, any number of concurrent operations on different manifests, failures of the index exchanges, failed manifest DELETE) 'listing = exactly the live manifests' IS a theorem: C14_listing_is_live (a manifest no operation is working on and no failed operation has touched is listed iff it is in the registry); tied by the Y lines (live set predicted by the model vs registry store)",
     ],
     "level_text": "Coq theorems: applyReferrerChanges (position map, tombstones, hint; transcribed loop by loop) = set semantics over the de-duplicated non-empty old list, NoDup, order of survivors, errNoReferrerUpdate iff nothing changes; for the Merge/Pool/updateReferrersIndex transition system, over every trace (any number of callers, every interleaving of lock regions and HTTP exchanges, any pre-existing index, injected failures of index GET/PUT/DELETE): at most one caller between prepare and complete, Pool entry dropped only when unreferenced, batches linearise (the calls that returned nil or a referrers-index-delete error - exactly those - took effect once, in order, and the index is the fold of their changes), index-delete error only after the update took effect, superseded indexes deleted unless skipped/failed, capability state never flips, tags independent; tied to the code by differential runs of the extracted models (apply/removeEmpty/filter; real Merge+Pool under synctest; end-to-end push/delete through one Repository against a fake tag-schema registry with gate-controlled exchange order, projected per tag onto the transition system) and an independent oracle (live set, Referrers-API registry, dangling indexes, capability samples)",
-    "level_note": "clause by clause: listing = fold of the accepted changes, each key once, no empty entry, filter (C14_listing + C14_no_lost_update: theorems over every trace); 'exactly the LIVE manifests' = C14_listing_is_live for every interleaving without same-manifest overlap (+ Y correspondence) and known finding same-manifest-race with refuted witness for the overlap; artifact type / annotations: C14_entries_origin + C14_equals_api (type rule only), rest oracle (decoration, api-mismatch vs the fake's own Referrers API); superseded indexes: C14_gc / C14_gc_clean / C14_gc_count + per-tag dangling count compared with the implementation; capability: CAS theorem + C14_capability_all_paths (translator: the field has no other writer) + e2e samples; channel-level interleavings: safety proved (C14_fine_simulated), deadlock freedom proved at channel granularity (C14_fine_no_deadlock, counting invariant InvP) and exercised by the free-running stress stream; Merge's channel hand-off is one model step (see assumptions); referrers listing by the Referrers API profile is the fake registry's own implementation of the distribution spec (C14_equals_api is about the artifact-type rule); manifests whose push/delete returned a plain error are 'uncertain' for the oracle (may or may not be listed), as the property allows; three defects of oras-go found by this check were repaired in fix: commits (known_findings.d/C14.json)",
+    "level_note": "clause by clause: listing = fold of the accepted changes, each key once, no empty entry, filter (C14_listing + C14_no_lost_update: theorems over every trace); 'exactly the LIVE manifests' = C14_listing_is_live for every interleaving without same-manifest overlap (+ Y correspondence) and known finding same-manifest-race with refuted witness for the overlap; artifact type / annotations: C14_entries_origin + C14_equals_api (type rule only), rest oracle (decoration, api-mismatch vs the fake's own Referrers API); superseded indexes: C14_gc / C14_gc_clean / C14_gc_count + per-tag dangling count compared with the implementation; capability: CAS theorem + C14_capability_all_paths (translator: the field has no other writer) + e2e samples; channel-level interleavings: safety proved (C14_fine_simulated), deadlock freedom and bounded completion proved at channel granularity (C14_fine_no_deadlock with the counting invariant InvP, C14_fine_bounded_completion) and exercised by the free-running stress stream; Merge's channel hand-off is one model step (see assumptions); referrers listing by the Referrers API profile is the fake registry's own implementation of the distribution spec (C14_equals_api is about the artifact-type rule); manifests whose push/delete returned a plain error are 'uncertain' for the oracle (may or may not be listed), as the property allows; three defects of oras-go found by this check were repaired in fix: commits (known_findings.d/C14.json)",
     "technique": "machine-checked proof in Coq (invariants over all traces of a transition system; refinement of the position-map algorithm to set semantics) + extracted-model/implementation correspondence under testing/synctest + independent oracle",
     "explanation": "theorems over all interleavings/histories about the model of applyReferrerChanges and of the Merge/Pool/updateReferrersIndex protocol; the extracted model replays the schedules observed on the real code (random + all schedules of small cases) and must predict batches, per-call results and the final index; the oracle compares Referrers()/Predecessors() after quiescence with the generator's live set and with a Referrers-API registry",
 }
